@@ -586,6 +586,50 @@ theorem no_unsigned_use (Dep : Cid → Cid → Prop) (fs0 : FS) (P : Nat → Pro
   | op o next =>
     cases o <;> first | rfl | exact h.1.elim
 
+/-! #### any table of packages -/
+
+/-- the content ids of one package: signature (signed apk), control, data, tar -/
+structure PkgIds where
+  sg : Option Cid
+  k1 : Cid
+  k2 : Cid
+  k3 : Cid
+
+/-- the dependencies of a whole repository: the data section of every signed package depends on its
+signature section -/
+def tableDep (tbl : List PkgIds) : Cid → Cid → Prop := fun k d => ∃ p, p ∈ tbl ∧ p.k2 = k ∧ p.sg = some d
+
+/-- content ids play one role: a data section's id is not also some package's control / tar / signature
+id, and a data section belongs to one signature (ids are assigned per section content) -/
+def DistinctRoles (tbl : List PkgIds) : Prop :=
+  ∀ p, p ∈ tbl → ∀ q, q ∈ tbl →
+    q.k2 ≠ p.k1 ∧ q.k2 ≠ p.k3 ∧ (∀ k0, p.sg = some k0 → q.k2 ≠ k0) ∧ (q.k2 = p.k2 → q.sg = p.sg)
+
+/-- T: for ANY table of packages with distinct roles, every package's builder respects the table's
+dependencies — so `hit_has_signature`, `hit_sections_correct`, `no_unsigned_use` apply to pools of
+builders for any number of signed and unsigned packages, any number of builders each. -/
+theorem table_pkgDeps (tbl : List PkgIds) (hd : DistinctRoles tbl) (p : PkgIds) (hp : p ∈ tbl) (t0 : Name) :
+    PkgDeps (tableDep tbl) (p.sg.map fun k0 => (t0, k0)) p.k1 p.k2 p.k3 := by
+  refine ⟨?_, ?_, ?_, ?_, ?_⟩
+  · rintro d ⟨q, hq, h2, _⟩; exact (hd p hp q hq).1 h2
+  · rintro d ⟨q, hq, h2, _⟩; exact (hd p hp q hq).2.1 h2
+  · cases hs : p.sg with
+    | none => trivial
+    | some k0 =>
+      show ∀ d, ¬ tableDep tbl k0 d
+      rintro d ⟨q, hq, h2, _⟩; exact (hd p hp q hq).2.2.1 k0 hs h2
+  · rintro d ⟨q, hq, h2, hs⟩
+    have := (hd p hp q hq).2.2.2 h2
+    rw [← this, hs]; exact ⟨t0, rfl⟩
+  · cases hs : p.sg with
+    | none => trivial
+    | some k0 => exact ⟨p, hp, rfl, hs⟩
+
+theorem table_safe_builder (tbl : List PkgIds) (hd : DistinctRoles tbl) (p : PkgIds) (hp : p ∈ tbl)
+    (pres : Cid → Prop) (t0 t1 t2 t3 t4 : Name) (n : Nat) :
+    safe (tableDep tbl) pres (pkgBuilder (p.sg.map fun k0 => (t0, k0)) t1 t2 t3 t4 p.k1 p.k2 p.k3 n) :=
+  safe_pkgBuilder _ _ _ _ _ _ _ _ _ _ n (table_pkgDeps tbl hd p hp t0)
+
 /-! #### witnesses: the hypotheses are satisfiable, and both ways of getting the order wrong fail -/
 
 /-- data section 2 depends on signature section 4 -/
